@@ -98,6 +98,7 @@ def wrappers(t, force_alias=False):
             ('after s as A: no t { %s }' % text, {'this': 't', 'A': 's'}),
             ('globally: s as A causes t { %s }' % text, {'this': 't', 'A': 's'}),
             ('globally: (u or s as A) forbids t { %s }' % text, {'this': 't', 'A': 's'}),
+            ('after s as A: u requires t { %s }' % text, {'this': 't', 'A': 's'}),
             ('globally: t { %s } requires s as A' % text, None),  # trigger cannot see the behaviour alias... (requires: behaviour binds first)
             ('after s as A until t { %s }: no u' % text, {'this': 't', 'A': 's'}),
         ]
@@ -217,6 +218,33 @@ def run(unit):
                                     f'«{text}» checked against schemas of kinds {order[:j + 1]}: the last one raised {type(e).__name__}: {str(e)[:140]}', size=len(text) + j)
                         break
                 r.count('validated')
+        # typed predicates: the schema of the right kind must be accepted and the others rejected, whatever
+        # was checked before on the same parsed property (exactness along a history of 3 checks)
+        typed = {'N': ['x > 0', 'abs(x) + y < z', 'xs[0] > w', 'x in [0 to y]'], 'B': ['not x', 'x and (y or z)', 'xs[0] implies w'], 'S': ['x = "a"', 'y in {"a", "b"} or x = "c"']}
+        for want, texts in typed.items():
+            for text in texts:
+                for order in permutations(('N', 'B', 'S'), 3):
+                    r.count('evaluations')
+                    r.count('states')
+                    st, prop = impl.try_parse('prop', 'after s as A: no t { %s }' % text)
+                    if st != 'ok':
+                        r.notes['rejected:' + st] += 1
+                        continue
+                    for j, kd in enumerate(order):
+                        sc = schemas.msg({'x': kd, 'y': kd, 'z': kd, 'w': kd, 'xs': schemas.arr(kd)})
+                        tok = schemas.to_token(sc, 'M' + kd)
+                        r.count('transitions')
+                        try:
+                            prop.type_check_references({'t': tok, 's': tok})
+                            ok = True
+                        except Exception as e:  # noqa: BLE001
+                            ok = False
+                            err = f'{type(e).__name__}: {str(e)[:100]}'
+                        if ok != (kd == want):
+                            r.violation('schema check depends on an earlier check of the same property', {'schema': 'two-schemas', 'text': text, 'order': list(order)},
+                                        f'«{text}» (fields must be {want}) checked against schemas of kinds {order[:j + 1]}: the last check {"passed" if ok else "failed: " + err}', size=len(text) + j)
+                            break
+                    r.count('validated')
         r.sample({'two_schemas': generic[0]})
         return r
     if sname == 'matrix':
